@@ -42,7 +42,7 @@ def full (P : Proto) (limit n : Nat) : Bool :=
   (!P.zeroUnl || decide (0 < limit)) && decide (limit ≤ n)
 
 inductive Op where
-  | admit      -- one admission request
+  | acquire      -- one admission request
   | release    -- give back what this thread was admitted with last (close / delete), one step
 deriving DecidableEq, Repr
 
@@ -143,7 +143,7 @@ def stepThread (P : Proto) (limit : Nat) (c : Cfg) (tid : Nat) : Cfg :=
                  threads := upd c.threads tid { finishOp (c.threads tid) with own := none },
                  trace := c.trace ++ [.rel tid it (c.occ.erase it).length] }
       else nopCfg c tid
-  | .admit :: _ =>
+  | .acquire :: _ =>
     match (c.threads tid).pc with
     | .idle =>
       if P.mutex then
